@@ -114,3 +114,37 @@ func VH_validate_witness_commitment() {
 		vReach("reject")
 	}
 }
+
+// C13(2'): the witness nonce must be EXACTLY 32 bytes even when the commitment was computed over its first 32: a
+// block whose coinbase commits (through the real AddWitnessCommitment-style computation, hence with real hashes in
+// the replay) to root || nonce[:32] is accepted with a 32-byte nonce and rejected with a 31-, 33- or 64-byte one.
+//verif:opts reach=accept,reject
+func VH_witness_nonce_length_exact() {
+	nlen := []int{32, 31, 33, 64}[vNondetLen("nonceLen", 3)]
+	nonce := make([]byte, nlen)
+	for i := range nonce {
+		nonce[i] = byte(i + 1)
+	}
+	other := wire.NewMsgTx(1)
+	other.AddTxIn(&wire.TxIn{Sequence: vNondetU32("seq"), Witness: wire.TxWitness{[]byte{7}}})
+	cb := wire.NewMsgTx(1)
+	cb.AddTxIn(&wire.TxIn{PreviousOutPoint: wire.OutPoint{Index: 0xffffffff}, SignatureScript: []byte{0x51, 0x51}, Sequence: 0xffffffff,
+		Witness: wire.TxWitness{nonce}})
+	cb.AddTxOut(&wire.TxOut{Value: 1, PkScript: []byte{0x51}})
+	// commitment over the first (at most) 32 bytes of the nonce, zero padded
+	var zero chainhash.Hash
+	root := specHashPair(zero, *btcutil.NewTx(other).WitnessHash())
+	var n32 [32]byte
+	copy(n32[:], nonce)
+	commit := chainhash.DoubleHashB(append(append([]byte{}, root[:]...), n32[:]...))
+	cb.AddTxOut(&wire.TxOut{Value: 0, PkScript: append([]byte{0x6a, 0x24, 0xaa, 0x21, 0xa9, 0xed}, commit...)})
+	blk := btcutil.NewBlock(&wire.MsgBlock{Transactions: []*wire.MsgTx{cb, other}})
+	err := ValidateWitnessCommitment(blk)
+	if nlen == 32 {
+		vAssert(err == nil, "a correct commitment with a 32-byte nonce is accepted")
+		vReach("accept")
+	} else {
+		vAssert(err != nil, "a coinbase witness nonce that is not exactly 32 bytes is rejected")
+		vReach("reject")
+	}
+}
